@@ -15,8 +15,24 @@ import (
 
 func TestMain(m *testing.M) { run.Main(m, "C19") }
 
-func key(k int) string { return fmt.Sprintf("k%d", k) }
+// keys: plain ones for the keys of the exhaustive vocabulary, awkward ones (a quote, a control
+// character, DEL, a non-printable rune above U+FFFF, invalid UTF-8, the empty string) for the
+// others - the JSON rendering has to quote them as JSON does
+var keyNames = []string{"k0", "k1", "k2", "k\"3", "k\x014", "k\x7f5", "k\U000e00016", "", "é8"}
+
+func key(k int) string {
+	if k >= 0 && k < len(keyNames) {
+		return keyNames[k]
+	}
+	return fmt.Sprintf("k%d", k)
+}
+
 func unkey(s string) int {
+	for i, n := range keyNames {
+		if n == s {
+			return i
+		}
+	}
 	var k int
 	fmt.Sscanf(s, "k%d", &k)
 	return k
